@@ -39,7 +39,7 @@ ASSUMPTIONS = ["single-frame messages (<= 24 bytes): the property's scope", "chi
 CLAUSES = {"true_only_if": "True only if a NETWORK_ACK addressed to the sender arrived within route_timeout",
            "false_only_if": "False otherwise", "bounded": "never blocking longer than the transmit and route timeouts allow",
            "once": "the delivering node sends exactly one NETWORK_ACK", "never": "other types / neighbours / multicasts / NETWORK_ACKs cause none"}
-PROBES = ["max_rt", "late_ack_calibrated"]
+PROBES = ["max_rt", "late_ack_calibrated", "readdressed_after_timeouts_were_set"]
 SHRINK_KEYS = ("faults",)
 CHUNK = 8
 MAX_INCONCLUSIVE = 0.02
@@ -187,9 +187,13 @@ def run(scn):
 def _run(scn, w, net, res):
     sim = w.sim
     for nd in scn["nodes"]:
-        def setup(node):
+        def setup(node, nd=nd):
             node.tx_timeout = scn["tx_timeout"]
             node.route_timeout = scn["route_timeout"]
+            if (scn["seed"] + nd["addr"]) % 4 == 0:
+                # history: the node is (re-)addressed after its timeouts were set (the timeouts are the application's, not the address's)
+                node.node_address = nd["addr"]
+                sim.count("readdressed_after_timeouts_were_set")
         kn = nd["knobs"]
         if scn.get("cross") and scn["cross"].get("slow_sender") and nd["addr"] == scn["src"]:
             # a slow sender finds several frames in its RX FIFO in one pass (its own NETWORK_ACK and relayed ones)
